@@ -31,7 +31,7 @@ func init() {
 		Batch:  func(t string) int { return 25 },
 		Floors: []string{"hist_fresh_twice", "hist_reset_after_close", "hist_reset_after_abandon", "hist_reset_after_failed_sink", "hist_other_goroutine", "hist_buffer_reuse", "hist_sorting_writer_reuse", "sorting_writer_abandoned_chunk", "sorting_writer_dedupe", "xvariant_digests_joined", "stride_multiple_page_counts"},
 		Rule: "case = (catalogue type without maps, rows, option combination); the same (rows, options) are written by a fresh writer twice, after unrelated writes, by a writer reused through Reset after a completed / abandoned / failed " +
-			"previous file with different content, from another goroutine, through reused GenericBuffer/RowBuffer/SortingWriter; all digests must be equal, and the fresh digest is joined across the std, purego and noavx builds. " +
+			"previous file with different content, from another goroutine, through reused GenericBuffer/RowBuffer/SortingWriter (with and without duplicate dropping, also after a sorted chunk given up before Reset); all digests must be equal, and the fresh digest is joined across the std, purego and noavx builds. " +
 			"Distinct = descriptor hash; non-trivial = >= 1 row",
 		Assumptions: []string{"Go map-typed columns and encryption are excluded as the statement says", "sha256 collisions are ignored"},
 		Run:         runC17,
